@@ -212,7 +212,7 @@ def apply_resultpath(input, result, path="$"):
             "The value of \"ResultPath\" MUST NOT begin with \"$$\""
         )
 
-    matches = re.findall(r"[^$.[\]]+", path)  # Regex to split the reference paths
+    matches = re.findall(r"[^$.[\]']+", path)  # Regex to split the reference paths
     return update_path(input, matches, result)
 
 def evaluate_payload_template(input, context, template):
